@@ -166,7 +166,7 @@ def c19(prop, tier, res, replay=None):
 CONCX = dict(sub="concx", mode="concx", family="concx", shards=q(4, 16),
              args=lambda tier, sd, sh: ["-seed", sd * 1000 + sh, "-rounds", 40 if tier == "quick" else 400],
              key_fields=["k", "scenario", "backend", "goroutines"])
-CONCX_ASSUME = ["concurrency: the theorems are about sequential histories (every handler decision is one critical section); hkharness concx fires 4-32 goroutines at the same instant through the real handlers and stores in 15 scenarios whose outcome is schedule-independent (one nonce - also with a slow clock; a full queue under single enqueues and under batches; one bucket, handler and object level; one contested id; ack vs cancel; a duplicate stale ack against a slow store; a request served while a tolerance-raising reload waits; pull authorization while the configuration flips; eviction vs consumers; concurrent MCP writers of one file; stale lease operations vs a re-lease; a producer and a consumer next to a large idle population) - these sample schedules and can only fail on one that breaks the bound. One scenario is deterministic instead: other requests are issued through a second handle on the same SQLite file from inside the first handle's clock callback, i.e. exactly between the two steps of a by-filter requeue / resume"]
+CONCX_ASSUME = ["concurrency: the theorems are about sequential histories (every handler decision is one critical section); hkharness concx fires 4-32 goroutines at the same instant through the real handlers and stores in 15 scenarios whose outcome is schedule-independent (plus three hostile-environment scenarios: a foreign holder of the SQLite write lock, an upload that dies half way over real TCP, a fan-out refused part-way followed by other traffic) (one nonce - also with a slow clock; a full queue under single enqueues and under batches; one bucket, handler and object level; one contested id; ack vs cancel; a duplicate stale ack against a slow store; a request served while a tolerance-raising reload waits; pull authorization while the configuration flips; eviction vs consumers; concurrent MCP writers of one file; stale lease operations vs a re-lease; a producer and a consumer next to a large idle population) - these sample schedules and can only fail on one that breaks the bound. One scenario is deterministic instead: other requests are issued through a second handle on the same SQLite file from inside the first handle's clock callback, i.e. exactly between the two steps of a by-filter requeue / resume"]
 
 
 OPFRONT = dict(sub="opfront", mode="opfront", family="opfront", shards=q(4, 16),
